@@ -1,6 +1,7 @@
 package lib
 
 import (
+	"bytes"
 	"net"
 
 	"github.com/refraction-networking/conjure/internal/verifnd"
@@ -151,4 +152,26 @@ func VerifSELFSelectParked() {
 	verifnd.Settle()
 	verifnd.Assert(sent == got, "SELF.select.parked-rendezvous-is-atomic")
 	verifnd.Reach("SELF.select.parked.done")
+}
+
+// VerifSELFCaseMap: the per-byte summary of bytes.ToLower / bytes.ToUpper equals
+// the definition for every ASCII byte string of length 0-3 (non-ASCII input is
+// handed to the library code itself and needs no check).
+func VerifSELFCaseMap() {
+	b := verifnd.Bytes("b", verifnd.Choose("len", 4))
+	for _, c := range b {
+		verifnd.Assume(c < 0x80)
+	}
+	lo, up := bytes.ToLower(b), bytes.ToUpper(b)
+	ok := len(lo) == len(b) && len(up) == len(b)
+	for i, c := range b {
+		isUp := verifnd.And('A' <= c, c <= 'Z')
+		isLo := verifnd.And('a' <= c, c <= 'z')
+		ok = verifnd.And(ok, verifnd.Implies(isUp, lo[i] == c+32))
+		ok = verifnd.And(ok, verifnd.Implies(!isUp, lo[i] == c))
+		ok = verifnd.And(ok, verifnd.Implies(isLo, up[i] == c-32))
+		ok = verifnd.And(ok, verifnd.Implies(!isLo, up[i] == c))
+	}
+	verifnd.Assert(ok, "SELF.casemap")
+	verifnd.Reach("SELF.casemap.done")
 }
